@@ -7,21 +7,63 @@ def pybind_run():
     return run_tlc("PyBind.tla", cfg(invariants=["ModelOK", "ExportPy"]), "pybind", workers=2, timeout=600)
 
 
+def pyarrays_run():
+    return run_tlc("PyArrays.tla", cfg(constants={"Depth": 2}, overrides={"Shapes": "ShapesDefault", "WithDeviation": "Off"},
+                                       invariants=["ModelOK", "Export"], properties=["Immutable"]), "pyarrays", workers=3, timeout=900)
+
+
+def pyarrays_deviation_run():
+    """non-vacuity of Immutable: with the crate's original in-place treatment of object arrays as an action the property must fail"""
+    try:
+        r = run_tlc("PyArrays.tla", cfg(constants={"Depth": 2}, overrides={"Shapes": "ShapesDefault", "WithDeviation": "On"},
+                                        invariants=["ModelOK"], properties=["Immutable"]), "pyarrays_dev", workers=2, timeout=900)
+    except ToolError as e:
+        raise
+    if "Immutable" not in r.violated:
+        raise ToolError("vacuity: Immutable is not violated by the in-place deviation (PyArrays.tla)")
+    return r
+
+
+def replay_one(rep):
+    """re-run one recorded Python case through the real bindings and show what Python returns now"""
+    build_harness("hpy")
+    code = rep.get("code")
+    if not code:
+        print(json.dumps(rep, indent=1, ensure_ascii=False)[:4000])
+        return 0
+    os.makedirs(WORK, exist_ok=True)
+    f = os.path.join(WORK, "replay_c17.py")
+    tail = "print(__out)\n" if "__out" in code else "print(rr)\n"
+    open(f, "w").write(code + "\n" + tail)
+    exe = os.path.join(HARNESS, "target", "debug", "hpy")
+    p = subprocess.run([exe, "--exec", f], stdout=subprocess.PIPE, stderr=subprocess.PIPE, text=True, timeout=600,
+                       env=dict(os.environ, PYTHONIOENCODING="utf-8"))
+    print("python now returns:", p.stdout.strip()[:3000] or p.stderr.strip()[:1500])
+    for k in ("python_repr", "rust_display", "first_differing_object", "python", "fresh"):
+        if k in rep:
+            print("recorded %s: %s" % (k, json.dumps(rep[k], ensure_ascii=False)[:1500]))
+    return 0
+
+
 def run(tier):
     chk = Check("C17", tier, "model_checking")
     build_harness("hpy")
-    pb, dr = parallel([pybind_run, lambda: drivers_run("num", 3, 3, "drivers_py", caseset="py")], 2)
+    pb, dr, pa, pdev = parallel([pybind_run, lambda: drivers_run("num", 3, 3, "drivers_py", caseset="py"), pyarrays_run,
+                                 pyarrays_deviation_run], 4)
     chk.add_tlc(pb, "forwarding table python method/operator -> program of Rust operations; reflected operators mean l-x, l/x, l+x, l*x "
                     "(checked over exact rationals on the five scalar kinds); driver dispatch on the input length")
     chk.add_tlc(dr, "driver cases for input lengths 1..12 (closures, points, expected outputs by formal differentiation)")
-    for r, nm in ((pb, "PyBind"), (dr, "Drivers")):
+    chk.add_tlc(pa, "Python heap of dual scalars, float arrays and object arrays (shapes (3,), (2,2), (0,)): every behaviour of two operator "
+                    "applications over every pair of heap objects; Elementwise, Kinds, Immutable (operands never change, results are new objects)")
+    chk.cov["deviation_run"] = "PyArrays with the in-place action InPlaceObj added violates Immutable (expected; non-vacuity)"
+    for r, nm in ((pb, "PyBind"), (dr, "Drivers"), (pa, "PyArrays")):
         if r.violated:
             chk.model_violation(r, nm)
     if chk.violations:
         return chk.finish()
     exe = os.path.join(HARNESS, "target", "debug", "hpy")
-    p = subprocess.run([exe, "--table", pb.out_path, "--drivers", dr.out_path, "--seed", str(seed()), "--samples",
-                        "3" if tier == "quick" else "150"], stdout=subprocess.PIPE, stderr=subprocess.PIPE, text=True, timeout=3000,
+    p = subprocess.run([exe, "--table", pb.out_path, "--drivers", dr.out_path, "--arrays", pa.out_path, "--stride",
+                        "20" if tier == "quick" else "1", "--seed", str(seed()), "--samples", "3" if tier == "quick" else "150"], stdout=subprocess.PIPE, stderr=subprocess.PIPE, text=True, timeout=3000,
                        env=dict(os.environ, PYTHONIOENCODING="utf-8"))
     if p.returncode != 0:
         raise ToolError("hpy failed rc=%d: %s" % (p.returncode, p.stderr[-1500:]))
@@ -32,8 +74,16 @@ def run(tier):
         chk.distinct.add(k)
     for s in rep["samples"]:
         chk.sample(s)
-    if rep["distinct_cases"] < 470:
-        raise ToolError("vacuity: %d (class, expression / getter / driver) cases" % rep["distinct_cases"])
+    chk.cov["numpy"] = rep.get("numpy", "")
+    narr = len([k for k in rep["per_case"] if "|array " in k])
+    if rep.get("numpy", "").startswith("unavailable"):
+        chk.assumptions.append("NumPy could not be imported by the embedded interpreter: the array behaviours of PyArrays.tla were NOT replayed (%s)"
+                               % rep["numpy"][:200])
+    elif narr < 256:
+        raise ToolError("vacuity: %d (class, operand kinds, operator) array cases, expected 256" % narr)
+    chk.cov["array_cases"] = narr
+    if rep["distinct_cases"] - narr < 470:
+        raise ToolError("vacuity: %d (class, expression / getter / driver) cases" % (rep["distinct_cases"] - narr))
     for v in rep["violations"]:
         chk.violation("python binding: %s" % json.dumps(v, ensure_ascii=False)[:600], {"kind": "python-case", **v})
     chk.assumptions.append("only the eight scalar / nested classes are registered in the module; the fixed-size and dynamic vector "
@@ -41,4 +91,6 @@ def run(tier):
     return chk.finish(rule="one case = (Python class, expression from the TLC table) / (class, getter) / (driver, input length): the "
                            "expression is evaluated by the embedded CPython through the real bindings and by the Rust program of the "
                            "table; repr must equal the Rust Display string (round-trip exact rendering, so equality of text is "
-                           "equality of every part bit for bit) and every getter must return the same bits")
+                           "equality of every part bit for bit) and every getter must return the same bits; array behaviours (PyArrays.tla): after every step "
+                           "the whole Python heap (every element of every object, dtype, shape, freshness of the result) equals the model's heap with "
+                           "the terms evaluated by the Rust programs")
